@@ -7,7 +7,7 @@ from pyvc.solve import relevant_facts, _syms
 import z3
 reg = C.load_all(); idx = RepoIndex()
 q = [k for k in reg if k.endswith(sys.argv[1])][0]
-eng, obs, cx, t = verify_function(idx, reg, q)
+eng, obs, cx, t = verify_function(idx, reg, q, pid=(sys.argv[3] if len(sys.argv)>3 else None))
 ob = [o for o in obs if sys.argv[2] in o.name][0]
 cache={}
 seeds=_syms(ob.hyp,cache)|_syms(ob.goal,cache)
